@@ -32,6 +32,9 @@ fn apply<const N: usize>(s: &mut Bitset<N>, t: &mut Bitset<N>, name: &str, x: us
         "or_assign" => *s |= &*t,
         "xor_assign" => *s ^= &*t,
         "not" => *s = !s.clone(),
+        "and_self" => *s = &*s & &*s,
+        "or_self" => *s = &*s | &*s,
+        "xor_self" => *s = &*s ^ &*s,
         "t_set" => t.set(x),
         "t_flip" => t.flip(x),
         "t_copy" => *t = s.clone(),
@@ -192,7 +195,8 @@ fn record_n<const N: usize>(rng: &mut Rng, t: &mut TraceWriter, ops: usize) {
             61..=63 => ("and_assign", vec![]),
             64..=66 => ("or_assign", vec![]),
             67..=69 => ("xor_assign", vec![]),
-            70..=72 => ("not", vec![]),
+            70..=71 => ("not", vec![]),
+            72 => (["and_self", "or_self", "xor_self"][x % 3], vec![]),
             73..=80 => ("t_set", vec![]),
             81..=84 => ("t_flip", vec![]),
             85 => ("t_copy", vec![]),
@@ -231,8 +235,8 @@ pub fn record(seed: u64, tier: &str, out: &str) {
     let thorough = tier == "thorough";
     let mut rng = Rng::new(seed ^ 0xC12);
     let mut t = TraceWriter::create(out);
-    let rounds = if thorough { 40 } else { 6 };
-    let ops = if thorough { 3000 } else { 900 };
+    let rounds = if thorough { 12 } else { 6 };
+    let ops = if thorough { 2000 } else { 900 };
     let mut runs = 0;
     for _ in 0..rounds {
         record_n::<1>(&mut rng, &mut t, ops);
